@@ -13,6 +13,56 @@ NOT_APPLICABLE = {}
 HOOK_COMMITS = []
 
 PROPS = {
+    'C01': {
+        'scenarios': ['files'], 'corr': ['Corr/Files'], 'case_prefixes': ['cases_fbuild', 'cases_fread_history'],
+        'level': 'proof',
+        'level_text': 'Coq theorems C01_build_read_roundtrip (EVERY width >= 2 and EVERY chunk list: the builder model succeeds and the reader model returns exactly the concatenated chunks as a whole value, under every Seek/Read history with any buffer sizes, with the true reported length), C01_read_well_sized (any DAG whose declared sizes are true, i.e. also reference-written ones), C01_any_chunker. Proved by induction over tree depth / fill counter / chunk list and over the link list with offsets. Tied to the code on every run: 298+ builds (all tree shapes up to depth 4 for widths 2..5, random widths to 174, rabin chunker) compared with the model by DAG fingerprint and size, read back through direct/lazy/preload entry points, plus histories over builder- and boxo-written (balanced/trickle x raw/pb leaves x CIDv0/v1) DAGs.',
+        'level_note': 'theorems are about the hand-written models File/Builder.v (data/builder/file.go + boxo balanced layout) and File/Reader.v (file/*.go); the tie to the Go code is the per-run correspondence (built DAG fingerprint+size vs model, every reply and block request of Seek/Read histories vs model) plus the direct oracle; the linkSize fallback that opens children without declared sizes is outside the model (EUnmodelled, never compared); sizes are unbounded N (total < 2^63 assumed)',
+        'assumptions': ['chunkers: concat(chunks) = input (checked per run on the sampled chunkers)', 'reference-written DAGs are well_sized (evaluated by the model on every sampled DAG through the read correspondence)'],
+        'partial_clauses': ['reference-importer DAGs: well_sized is validated per sample, not proved for boxo trickle/balanced writers'],
+    },
+    'C04': {
+        'scenarios': ['files'], 'corr': ['Corr/Files'], 'case_prefixes': ['cases_fread_history'],
+        'level': 'proof',
+        'level_text': 'Coq theorems C04_reader_refines / C04_fresh_reader (for EVERY DAG with true sizes and EVERY finite Seek/Read history the replies of the reader state machine equal those of the abstract io.ReadSeeker over the content: absolute offsets, end-relative seeks with the true length, bytes at the offset, EOF at/past the end, error on negative target), C04_failed_seek_keeps_state (any DAG, any faults), C04_readers_independent (replies to reader i depend only on its own sub-history). Proved by a step-simulation lemma (take_view) and induction over the history. Tied to the code by 100+ multi-reader histories per quick run whose every reply (bytes, status, blocks requested) is compared with the model and with the abstract oracle.',
+        'level_note': 'theorems are about the hand-written models File/Builder.v (data/builder/file.go + boxo balanced layout) and File/Reader.v (file/*.go); the tie to the Go code is the per-run correspondence (built DAG fingerprint+size vs model, every reply and block request of Seek/Read histories vs model) plus the direct oracle; the linkSize fallback that opens children without declared sizes is outside the model (EUnmodelled, never compared); sizes are unbounded N (total < 2^63 assumed)',
+        'assumptions': ['zero-length Reads are excluded from histories (io.Reader discourages them)'],
+    },
+    'C05': {
+        'scenarios': ['files'], 'corr': ['Corr/Files'], 'case_prefixes': ['cases_fread_range'],
+        'level': 'proof',
+        'level_text': 'Coq theorem C05_range_loads: for EVERY DAG with true, positive sizes and EVERY range [a,a+k), the blocks requested by Seek(a)+Read(k) all have a byte span meeting the range (positions of requests in the effect stream, spans of the unfolded tree, induction over the DAG). File part proved; the sharded-directory lookup part (only the shards on the hash path) is covered by the HAMT model correspondence and oracle. Tied to the code by boundary and random ranges (also a second range on an already open reader) with the recorded StorageReadOpener sequence compared to the model.',
+        'level_note': 'theorems are about the hand-written models File/Builder.v (data/builder/file.go + boxo balanced layout) and File/Reader.v (file/*.go); the tie to the Go code is the per-run correspondence (built DAG fingerprint+size vs model, every reply and block request of Seek/Read histories vs model) plus the direct oracle; the linkSize fallback that opens children without declared sizes is outside the model (EUnmodelled, never compared); sizes are unbounded N (total < 2^63 assumed)',
+        'partial_clauses': ['HAMT lookup / path traversal clause: correspondence + oracle (see C02), not yet a theorem'],
+    },
+    'C07': {
+        'scenarios': ['files'], 'corr': ['Corr/Files'], 'case_prefixes': ['cases_fbuild'],
+        'level': 'proof',
+        'level_text': 'Coq theorem C07_same_tree: for EVERY width >= 2 and EVERY chunk list, build_file W chunks = Ok (ref_layout W chunks): the model of BuildUnixFSFile and the model of boxo balanced.Layout/fillNodeRec (raw leaves) produce the same block (hence same encoding and CID) and the same cumulative size; lock-step simulation by induction on depth, fill counter and fuel. Both models are tied to their implementations on every run: fingerprint+size of the DAG built by the library vs build_file, and of the DAG built by boxo vs ref_layout; plus the direct oracle CID(library) = CID(boxo), size = Size().',
+        'level_note': 'theorems are about the hand-written models File/Builder.v (data/builder/file.go + boxo balanced layout) and File/Reader.v (file/*.go); the tie to the Go code is the per-run correspondence (built DAG fingerprint+size vs model, every reply and block request of Seek/Read histories vs model) plus the direct oracle; the linkSize fallback that opens children without declared sizes is outside the model (EUnmodelled, never compared); sizes are unbounded N (total < 2^63 assumed)',
+        'assumptions': ['CID equality follows from block equality (same codec, SHA-256)'],
+    },
+    'C11': {
+        'scenarios': ['files'], 'corr': ['Corr/Files'], 'case_prefixes': ['cases_fbuild'],
+        'level': 'proof',
+        'level_text': 'Coq theorem C11_file_sizes: for EVERY width and chunk list the returned size is cum_size root (encoded length of the root + everything its links refer to, summed over the tree, so repeated chunks count every time), every link carries the cumulative size of its target (tsizes_ok) and every interior node declares FileSize/BlockSizes equal to the content beneath it / each child (well_sized). File builder proved; directory and shard builders: size recurrences checked by correspondence and a tree-walk oracle (see C02/C08).',
+        'level_note': 'theorems are about the hand-written models File/Builder.v (data/builder/file.go + boxo balanced layout) and File/Reader.v (file/*.go); the tie to the Go code is the per-run correspondence (built DAG fingerprint+size vs model, every reply and block request of Seek/Read histories vs model) plus the direct oracle; the linkSize fallback that opens children without declared sizes is outside the model (EUnmodelled, never compared); sizes are unbounded N (total < 2^63 assumed)',
+        'partial_clauses': ['directory / sharded-directory / recursive import sizes: oracle + correspondence'],
+    },
+    'C12': {
+        'scenarios': ['files'], 'corr': ['Corr/Files'], 'case_prefixes': ['cases_fread_faults'],
+        'level': 'proof',
+        'level_text': 'Coq theorems C12_read_fault (for EVERY DAG with true sizes and EVERY set of unavailable blocks the reader can obtain exactly the content preceding the first unavailable block of the fault-free read and then that block\'s load error, never EOF), C12_reads_deliver_view (every Read of any positive size delivers that view and keeps reporting the error), C12_readall_delivers_view. Proved via stream_cutf: the stream under faults is the fault-free stream cut at the first failing request. File part proved; lookup/iteration over sharded directories with missing shards: HAMT model correspondence + oracle. Tied to the code by every single unavailable block of every sampled file (builder- and boxo-written) and random subsets, two error kinds, four buffer sizes.',
+        'level_note': 'theorems are about the hand-written models File/Builder.v (data/builder/file.go + boxo balanced layout) and File/Reader.v (file/*.go); the tie to the Go code is the per-run correspondence (built DAG fingerprint+size vs model, every reply and block request of Seek/Read histories vs model) plus the direct oracle; the linkSize fallback that opens children without declared sizes is outside the model (EUnmodelled, never compared); sizes are unbounded N (total < 2^63 assumed)',
+        'partial_clauses': ['sharded-directory lookup/iteration under missing shards: correspondence + oracle'],
+    },
+    'C20': {
+        'scenarios': ['files'], 'corr': ['Corr/Files'], 'case_prefixes': ['cases_fread_order'],
+        'level': 'proof',
+        'level_text': 'Coq theorems C20_read_order (for EVERY DAG with true positive sizes the blocks requested by a full sequential read are exactly the depth-first link-order walk) and C20_built_files_pos_sized; the reader model is a function of the DAG only (no order oracle). File part proved; shard iteration/length/preload order and path order: correspondence + oracle. Tied to the code by the ordered StorageReadOpener log of full reads vs an independent DFS and vs the model.',
+        'level_note': 'theorems are about the hand-written models File/Builder.v (data/builder/file.go + boxo balanced layout) and File/Reader.v (file/*.go); the tie to the Go code is the per-run correspondence (built DAG fingerprint+size vs model, every reply and block request of Seek/Read histories vs model) plus the direct oracle; the linkSize fallback that opens children without declared sizes is outside the model (EUnmodelled, never compared); sizes are unbounded N (total < 2^63 assumed)',
+        'partial_clauses': ['sharded-directory iteration/length order, path traversal order: correspondence + oracle'],
+    },
     'C09': {
         'scenarios': ['codec'],
         'corr': ['Corr/Codec'],
